@@ -11,7 +11,7 @@ from .interp import NUM, BUILTIN_CLASSES, VPoison
 from .comp import CompMixin, VRange, Source
 
 LAZY_SPEC = {"requires", "ensures", "raises", "modifies", "returns", "invariant", "may_raise", "reads", "foreach",
-             "bounded", "decreases", "types", "pure", "assume_contract", "implies", "iff", "ite", "forall", "exists", "old"}
+             "bounded", "decreases", "shares", "types", "pure", "assume_contract", "implies", "iff", "ite", "forall", "exists", "old"}
 LOG_NAMES = {"aldy.common.log"}
 EXC_CLASSES = {"ValueError", "TypeError", "KeyError", "IndexError", "StopIteration", "AttributeError", "Exception",
                "AssertionError", "OSError", "ZeroDivisionError", "AldyException", "NoSolutionsError"}
@@ -74,6 +74,8 @@ class CallMixin(CompMixin):
             return self.call_qual(st, fn.qualname, args, kw, node)
         if k == "bound":
             return self.call_method(st, fn.recv, fn.name, args, kw, node)
+        if k == "std":
+            return self.call_std(st, fn.name, args, kw, node)
         if k == "partial":
             return self.call_value(st, fn.fn, list(fn.args) + args, dict(fn.kw, **kw), node)
         if k == "classattr":
@@ -408,6 +410,83 @@ class CallMixin(CompMixin):
                     st.pc.append(self.forall([b], z3.Implies(s.guard, b >= wit[0])))
         return subst(s.elem, pairs)
 
+    def call_std(self, st, name, args, kw, node):
+        a = [self.force(st, x) for x in args]
+        if name == "copy":
+            v = a[0]
+            if not isinstance(v, VRef):
+                return v
+            h = self.resolve(st, v)
+            r = self.alloc(st, h)
+            c = self.canon(st, v)
+            st.aliases.append((c.root, c.path, "shallow"))
+            st.aliases.append((r.root, (), "shallow"))
+            return r
+        if name == "deepcopy":
+            v = a[0]
+            if not isinstance(v, VRef):
+                return v
+            return self.alloc(st, self.deep_copy(st, self.resolve(st, v)))
+        if name == "partial":
+            return VFunc("partial", fn=a[0], args=a[1:], kw=kw)
+        if name == "natsorted":
+            return self.seq_builtin(st, "sorted", a, {k: v for k, v in kw.items() if k in ("key", "reverse")}, node) if not a or not self.needs_natsort(st, a[0], kw) else self.natsorted(st, a, kw, node)
+        if name in ("ceil", "floor"):
+            v = a[0]
+            if isinstance(v, VInt):
+                return v
+            t = to_real(v.t)
+            return VInt(-z3.ToInt(-t)) if name == "ceil" else VInt(z3.ToInt(t))
+        if name == "mean":
+            s0 = self.source(st, a[0])
+            if s0.concrete:
+                tot = VInt(0)
+                for x in s0.items:
+                    tot = self.binop(st, ast.Add(), tot, self.force(st, x))
+                self.oblige(st, "statistics-empty", z3.BoolVal(len(s0.items) > 0), where=self.where(node, st))
+                return self.binop(st, ast.Div(), tot, VInt(len(s0.items))) if s0.items else VReal(0)
+            tot = self.agg_sum(st, a[0])
+            n = self.agg_len(st, a[0]) if not isinstance(a[0], VFam) else VInt(self.bigsum(st, a[0].binders, a[0].guard, z3.IntVal(1)))
+            self.oblige(st, "statistics-empty", n.t > 0, where=self.where(node, st))
+            return VReal(to_real(tot.t) / to_real(n.t))
+        if name in ("defaultdict", "Counter"):
+            return self.construct(st, name, args, kw, node)
+        return self.call_external(st, name, args, kw, node)
+
+    def needs_natsort(self, st, v, kw):
+        return True
+
+    def natsorted(self, st, a, kw, node):
+        """natsorted: a deterministic total preorder (assumed); concrete inputs are ordered by an
+        abstract key, abstract inputs keep their multiset."""
+        s0 = self.source(st, a[0])
+        if not s0.concrete:
+            return VFam("list", s0.binders, s0.guard, s0.elem, None)
+        if len(s0.items) <= 1:
+            return self.alloc(st, HList(s0.items))
+        raise Unsupported("natsorted of several concrete items (order is an abstract preorder)")
+
+    def deep_copy(self, st, h):
+        if isinstance(h, HObj):
+            fs = {}
+            for k, v in h.fields.items():
+                fs[k] = self.deep_copy_v(st, v)
+            return HObj(h.cls, fs, h.lazy)
+        if isinstance(h, HList):
+            return HList([self.deep_copy_v(st, v) for v in h.items])
+        if isinstance(h, HPyDict):
+            return HPyDict([(k, self.deep_copy_v(st, v)) for k, v in h.items], h.default)
+        if isinstance(h, HPySet):
+            return h
+        return h  # templates are stored by value
+
+    def deep_copy_v(self, st, v):
+        if isinstance(v, VRef):
+            return self.alloc(st, self.deep_copy(st, self.resolve(st, v)))
+        if isinstance(v, H):
+            return self.deep_copy(st, v)
+        return v
+
     # ------------------------------------------------------------------ constructors
 
     def construct(self, st, cls, args, kw, node):
@@ -737,6 +816,8 @@ class CallMixin(CompMixin):
     def as_stored(self, st, new, by_value):
         if isinstance(new, _Raw):
             return new.h
+        if type(new).__name__ == "_Share":
+            return new.v
         return super().as_stored(st, new, by_value)
 
     def list_method(self, st, recv, h, name, args, kw, node):
